@@ -96,9 +96,15 @@ def check_url(col, u):
     for sa in (False, True, None):      # None: both sides with their default suffix_aware
         skw = {} if sa is None else {"suffix_aware": sa}
         inp = {"url": u, "suffix_aware": sa} if sa is not None else {"url": u, "options": "defaults"}
-        for name, stems_fn, url_fn in (("canonicalized", canonicalized_lru_stems, canonicalize_url), ("normalized", normalized_lru_stems, normalize_url),
-                                       ("fingerprinted", fingerprinted_lru_stems, fingerprint_url)):
-            full = call(url_fn, u)
+        for name, stems_fn, url_fn, okw in (("canonicalized", canonicalized_lru_stems, canonicalize_url, {}),
+                                            ("canonicalized", canonicalized_lru_stems, canonicalize_url, {"strip_fragment": True}),
+                                            ("normalized", normalized_lru_stems, normalize_url, {}),
+                                            ("normalized", normalized_lru_stems, normalize_url, {"strip_irrelevant_subdomains": False}),
+                                            ("normalized", normalized_lru_stems, normalize_url, {"strip_trailing_slash": False, "sort_query": False}),
+                                            ("fingerprinted", fingerprinted_lru_stems, fingerprint_url, {}),
+                                            ("fingerprinted", fingerprinted_lru_stems, fingerprint_url, {"strip_suffix": True})):
+            # okw: options of the URL-level function passed THROUGH the stems helper (its **kwargs)
+            full = call(url_fn, u, **okw)
             if full[0] != "ok" or (name != "canonicalized" and full[1] == u and not urlsplit("//" + u).hostname):
                 continue
             try:
@@ -107,7 +113,7 @@ def check_url(col, u):
                 continue
             if not R.denote(R.clean(u))["host"]:
                 continue
-            st = call(stems_fn, u, **skw)
+            st = call(stems_fn, u, **dict(skw, **okw))
             if name == "canonicalized":
                 exp = call(lru_stems, full[1], **skw)
             else:
@@ -116,8 +122,8 @@ def check_url(col, u):
                     exp = ("ok", [s for s in exp[1] if not s.startswith("s:")])
             if exp[0] != "ok":
                 continue
-            col.nontriv((name, u))
-            eq(col, name + "_lru_stems==stems-of-" + name + "-url", "ural.lru.stems.%s_lru_stems" % name, inp, st, exp)
+            col.nontriv((name, u, tuple(sorted(okw))))
+            eq(col, name + "_lru_stems==stems-of-" + name + "-url", "ural.lru.stems.%s_lru_stems" % name, dict(inp, **okw), st, exp)
 
 
 def check_host(col, h):
